@@ -46,11 +46,11 @@ def run_binary(cmd, cases, timeout, env=None, depth=0):
             # the per-case watchdog is wall-clock: on a loaded machine a long case can trip it. Run the case alone with a
             # generous limit before calling it a hang (at most twice per check: a real deadlock hangs again anyway)
             _HANG_CONFIRMATIONS[0] += 1
-            env2 = dict(env or os.environ, VERIF_CASE_TIMEOUT="25")
-            rc2, so2, _ = run(cmd, inp=_format([cases[c]]), timeout=60, env=env2)
+            env2 = dict(env or os.environ, VERIF_CASE_TIMEOUT="120")
+            rc2, so2, _ = run(cmd, inp=_format([cases[c]]), timeout=200, env=env2)
             again = _parse(so2, 1)[0]
             if rc2 == 0 and again is not None and not any(l.startswith("!HANG") for l in again):
-                res[c] = again + ["~hang-not-confirmed the case tripped the 5 s watchdog in its batch but finishes when run alone"]
+                res[c] = again + ["~hang-not-confirmed the case tripped the 5 s watchdog in its batch but finishes when run alone (limit 120 s)"]
         if not any(l.startswith("!HANG") for l in res[c]) and not any(l.startswith("~hang-not-confirmed") for l in res[c]):
             if rc == -9:
                 res[c] = res[c] + ["!TIMEOUT"]
